@@ -635,32 +635,31 @@ def _cls_segcircle_param(fname, args, problems):
     return bool(nz) and abs(nz[0]) <= 1e-6
 
 
-def _in_axis_band(point, c, n):
+def _axis_offset(point, c, n):
     diff = point - c
     dip = diff - float(diff.dot(n)) * n
-    s = float(dip.dot(dip))
-    return 0.0 < s < 1e-6
+    return math.sqrt(float(dip.dot(dip)))
 
 
-def _cls_circle_axis_band(fname, args, problems):
-    """point (or the segment end point the result is clamped to) closer than 1e-3 to the circle's axis but not on
-    it: point_to_circle returns an arbitrary rim point together with d = sqrt(r^2 + h^2), which is the distance
-    for a point ON the axis, not |p - rim point|."""
-    if _whats(problems) != ["distance-inconsistent"]:
+def _cls_circle_near_axis_illcond(fname, args, problems):
+    """point (or the segment end point the result is clamped to) between 1e-6 and 1e-3 from the circle's axis: since
+    /repo 0e4a1a6 it takes point_to_circle's general branch; the in-plane direction diff - (diff.n)*n is a small
+    difference of large vectors, its rounding error ~1e-16*|coordinates| is divided by the offset rho and scaled by the
+    radius: the 'circle point' is off the circle by <= 4e-15*|coordinates|*r/rho (> 1e-9*L for rho near 1e-6)."""
+    if _whats(problems) != ["p2-not-on-circle"]:
         return False
+    c, n, r = _v(args, "center"), _v(args, "normal"), float(args["radius"])
     if fname == "point_to_circle":
-        return _in_axis_band(_v(args, "point"), _v(args, "center"), _v(args, "normal"))
-    return False
-
-
-def _cls_segcircle_axis_band(fname, args, problems):
-    """line_segment_to_circle clamps to a segment end point and hands it to point_to_circle: same band."""
-    if fname != "line_segment_to_circle" or _whats(problems) != ["distance-inconsistent"]:
+        pts = [_v(args, "point")]
+    elif fname == "line_segment_to_circle":
+        p1 = np.array(problems[0]["detail"]["p1"], dtype=np.float64)
+        pts = [e for e in (_v(args, "segment_start"), _v(args, "segment_end")) if np.array_equal(p1, e)]
+    else:
         return False
-    c, n = _v(args, "center"), _v(args, "normal")
-    p1 = np.array(problems[0]["detail"]["p1"], dtype=np.float64)
-    for e in (_v(args, "segment_start"), _v(args, "segment_end")):
-        if np.array_equal(p1, e) and _in_axis_band(e, c, n):
+    for q in pts:
+        rho = _axis_offset(q, c, n)
+        S = max(1.0, float(np.abs(q).max()), float(np.abs(c).max()))
+        if 1e-6 <= rho <= 1e-3 and problems[0]["detail"]["residual"] <= 4e-15 * S * r / rho:
             return True
     return False
 
@@ -712,8 +711,7 @@ _FINDING_CLASSES = [
     ("F-c10-lineflat-illcond-zero", _cls_lineflat_illconditioned_zero),
     ("F-c10-linecircle-axis-rounding", _cls_linecircle_axis(False)),
     ("F-c10-segcircle-param-illcond", _cls_segcircle_param),
-    ("F-c10-circle-axis-band", _cls_circle_axis_band),
-    ("F-c10-circle-axis-band", _cls_segcircle_axis_band),
+    ("F-c10-circle-near-axis-illcond", _cls_circle_near_axis_illcond),
     ("F-c10-planeplane-illcond", _cls_planeplane_illconditioned),
     ("F-c10-tritri-eps-zero", _cls_tritri_eps_zero),
     ("F-c10-lineline-cancellation", _cls_lineline_cancellation),
@@ -1929,6 +1927,14 @@ REGRESSION_WITNESSES = [
                             "rectangle_center": [0.0, 0.0, 0.0],
                             "rectangle_axes": [[0.9999999701976776, 0.0, 0.000244140625], [0.0, 1.0, 0.0]],
                             "rectangle_lengths": [1.0, 1.0]}),
+    # /repo 0e4a1a6 "fix: point_to_circle treated every point within 1e-3 of the circle's axis as lying on the axis"
+    # (was F-c10-circle-axis-band: d = sqrt(r^2+h^2) inconsistent with the returned rim point)
+    ("point_to_circle", {"point": [0.0005, 0.0, 0.5], "center": [0.0, 0.0, 0.0], "radius": 1.0,
+                         "normal": [0.0, 0.0, 1.0]}),
+    ("point_to_circle", {"point": [0.0005, 0.0, 0.0], "center": [0.0, 0.0, 0.0], "radius": 1.0,
+                         "normal": [0.0, 0.0, 1.0]}),
+    ("line_segment_to_circle", {"segment_start": [0.0005, 0.0, 0.5], "segment_end": [0.0005, 0.0, 2.5],
+                                "center": [0.0, 0.0, 0.0], "radius": 1.0, "normal": [0.0, 0.0, 1.0]}),
     # /repo a2da3a4 "fix: line_to_box raised 'math domain error' when the line passes through the box"
     # (was F-c10-linebox-sqrt-negative)
     ("line_to_box", {"line_point": [0.3999999999999999, 1.7, 1.5], "line_direction": [0.36, 0.48, 0.8],
